@@ -8773,6 +8773,11 @@ tsk_ibd_finder_init(tsk_ibd_finder_t *self, const tsk_table_collection_t *tables
     self->max_time = max_time;
     self->min_span = min_span;
 
+    /* The finder indexes per-node arrays by the ids stored in the edge table */
+    ret = (int) tsk_table_collection_check_integrity(tables, 0);
+    if (ret != 0) {
+        goto out;
+    }
     ret = tsk_blkalloc_init(&self->segment_heap, 8192);
     if (ret != 0) {
         goto out;
@@ -12131,6 +12136,11 @@ tsk_table_collection_link_ancestors(tsk_table_collection_t *self, tsk_id_t *samp
         ret = tsk_trace_error(TSK_ERR_CANT_PROCESS_EDGES_WITH_METADATA);
         goto out;
     }
+    /* The mapper indexes per-node arrays by the ids stored in the edge table */
+    ret = (int) tsk_table_collection_check_integrity(self, 0);
+    if (ret != 0) {
+        goto out;
+    }
 
     ret = ancestor_mapper_init(
         &ancestor_mapper, samples, num_samples, ancestors, num_ancestors, self, result);
@@ -12609,6 +12619,12 @@ tsk_table_collection_delete_older(
     memset(&mutations, 0, sizeof(mutations));
     memset(&migrations, 0, sizeof(migrations));
 
+    /* Node times are looked up by the ids stored in the edge, mutation and
+     * migration tables */
+    ret = (int) tsk_table_collection_check_integrity(self, 0);
+    if (ret != 0) {
+        goto out;
+    }
     ret = tsk_edge_table_copy(&self->edges, &edges, 0);
     if (ret != 0) {
         goto out;
